@@ -545,6 +545,577 @@ pub mod c18 {
     }
 }
 
+
+/// Ghost socket: the TCP stream is replaced by two byte sequences (DESIGN 2.2). The state lives in a heap object
+/// reached through one static pointer: `static mut` arrays make Kani 0.68 report spurious pointer failures as soon
+/// as the code under test grows a Vec (measured), a leaked Box does not.
+pub mod ghost {
+    pub const CAP: usize = 48;
+    /// byte buffers on the heap (see above), scalar cursors in plain statics so that CBMC constant-propagates them
+    pub struct G {
+        pub inb: [u8; CAP],
+        pub out: [u8; CAP],
+    }
+    pub struct S {
+        pub in_len: usize,
+        pub in_pos: usize,
+        /// at most this many bytes are handed out per read() call (TCP segmentation)
+        pub chunk: usize,
+        /// bytes that have "arrived" so far; a non-blocking read beyond it sees nothing, a blocking read waits
+        pub arrived: usize,
+        pub nonblocking: bool,
+        pub out_len: usize,
+        pub reads: usize,
+    }
+    pub static mut G_PTR: *mut G = std::ptr::null_mut();
+    pub static mut ST: S = S { in_len: 0, in_pos: 0, chunk: usize::MAX, arrived: usize::MAX, nonblocking: false, out_len: 0, reads: 0 };
+    pub fn g() -> &'static mut S {
+        unsafe { &mut *std::ptr::addr_of_mut!(ST) }
+    }
+    pub fn bufs() -> &'static mut G {
+        unsafe { &mut *G_PTR }
+    }
+    pub fn reset() {
+        let b = Box::new(G { inb: [0; CAP], out: [0; CAP] });
+        unsafe {
+            G_PTR = Box::into_raw(b);
+            ST = S { in_len: 0, in_pos: 0, chunk: usize::MAX, arrived: usize::MAX, nonblocking: false, out_len: 0, reads: 0 };
+        }
+    }
+    pub fn push_in(bytes: &[u8]) {
+        let g = g();
+        bufs().inb[g.in_len..g.in_len + bytes.len()].copy_from_slice(bytes);
+        g.in_len += bytes.len();
+    }
+    pub fn stub_read(_s: &mut humphrey::stream::Stream, buf: &mut [u8]) -> std::io::Result<usize> {
+        let g = g();
+        g.reads += 1;
+        let mut limit = if g.arrived < g.in_len { g.arrived } else { g.in_len };
+        if limit <= g.in_pos {
+            if g.nonblocking {
+                // nothing available right now: `Ok(0)` stands for both "would block" and EOF here, because building
+                // an io::Error(WouldBlock) and calling kind() on it costs CBMC > 200 s per occurrence (measured);
+                // Frame::from_stream_nonblocking maps Ok(0) and WouldBlock to the same result
+                return Ok(0);
+            }
+            // a blocking read waits until the rest has arrived; with nothing more to come the peer has gone (EOF)
+            g.arrived = usize::MAX;
+            limit = g.in_len;
+            if limit <= g.in_pos {
+                return Ok(0);
+            }
+        }
+        let left = limit - g.in_pos;
+        let mut n = if buf.len() < left { buf.len() } else { left };
+        if n > g.chunk { n = g.chunk; }
+        buf[..n].copy_from_slice(&bufs().inb[g.in_pos..g.in_pos + n]);
+        g.in_pos += n;
+        Ok(n)
+    }
+    pub fn stub_write(_s: &mut humphrey::stream::Stream, buf: &[u8]) -> std::io::Result<usize> {
+        let g = g();
+        let n = buf.len();
+        assert!(g.out_len + n <= CAP, "ghost OUT capacity");
+        bufs().out[g.out_len..g.out_len + n].copy_from_slice(buf);
+        g.out_len += n;
+        Ok(n)
+    }
+    pub fn stub_set_nonblocking(_s: &humphrey::stream::Stream) -> std::io::Result<()> {
+        g().nonblocking = true;
+        Ok(())
+    }
+    pub fn stub_set_blocking(_s: &humphrey::stream::Stream) -> std::io::Result<()> {
+        g().nonblocking = false;
+        Ok(())
+    }
+    pub fn stub_now() -> std::time::Instant {
+        unsafe { std::mem::zeroed() }
+    }
+    pub fn stub_close(_fd: i32) -> i32 {
+        0
+    }
+    pub fn dummy_stream() -> humphrey::stream::Stream {
+        use std::os::unix::io::FromRawFd;
+        humphrey::stream::Stream::Tcp(unsafe { std::net::TcpStream::from_raw_fd(3) })
+    }
+}
+
+/// Scripted contract stub for the frame decoder. `Message::from_stream*` is verified against the *contract* of
+/// `Frame::from_stream` (decided under C10: "returns the next frame of the stream with its payload unmasked, or
+/// ReadError when the stream ends") instead of re-executing the byte-level decoder: the stub hands out the next
+/// frame of a symbolic script. Going through the byte level here does not finish (io::Error drop glue, measured).
+pub mod frames {
+    use crate::error::WebsocketError;
+    use crate::frame::{Frame, Opcode};
+    use std::convert::TryFrom;
+    pub const MAXF: usize = 4;
+    pub const MAXP: usize = 2;
+    pub struct Script {
+        pub n: usize,
+        pub next: usize,
+        pub plen: usize,
+        pub fin: [bool; MAXF],
+        pub op: [u8; MAXF],
+        pub pl: [[u8; MAXP]; MAXF],
+        /// the non-blocking decoder reports `nothing yet`
+        pub nb_nothing: bool,
+    }
+    pub static mut SC: Script = Script { n: 0, next: 0, plen: 0, fin: [false; MAXF], op: [0; MAXF], pl: [[0; MAXP]; MAXF], nb_nothing: false };
+    pub fn sc() -> &'static mut Script {
+        unsafe { &mut *std::ptr::addr_of_mut!(SC) }
+    }
+    pub fn reset(plen: usize) {
+        let s = sc();
+        s.n = 0; s.next = 0; s.plen = plen; s.nb_nothing = false;
+    }
+    pub fn push(fin: bool, op: u8, pl: &[u8]) {
+        let s = sc();
+        s.fin[s.n] = fin; s.op[s.n] = op;
+        let mut i = 0;
+        while i < pl.len() { s.pl[s.n][i] = pl[i]; i += 1; }
+        s.n += 1;
+    }
+    pub fn next_frame() -> Result<Frame, WebsocketError> {
+        let s = sc();
+        if s.next < s.n {
+            let i = s.next;
+            s.next += 1;
+            let opcode = match Opcode::try_from(s.op[i]) { Ok(o) => o, Err(e) => return Err(e) };
+            let mut payload = Vec::with_capacity(MAXP);
+            let mut j = 0;
+            while j < s.plen { payload.push(s.pl[i][j]); j += 1; }
+            Ok(Frame { fin: s.fin[i], rsv: [false; 3], opcode, mask: true, length: s.plen as u64, masking_key: [0; 4], payload })
+        } else {
+            Err(WebsocketError::ReadError)
+        }
+    }
+    pub fn stub_from_stream<T: std::io::Read>(_stream: T) -> Result<Frame, WebsocketError> {
+        next_frame()
+    }
+    pub fn stub_from_stream_nonblocking(_stream: &mut humphrey::stream::Stream) -> crate::restion::Restion<Frame, WebsocketError> {
+        if sc().nb_nothing { return crate::restion::Restion::None; }
+        next_frame().into()
+    }
+}
+
+pub mod c11 {
+    use super::frames;
+    use super::ghost;
+    use crate::error::WebsocketError;
+    use crate::frame::{Frame, Opcode};
+    use crate::message::Message;
+    use crate::stream::WebsocketStream;
+    use std::convert::TryFrom;
+
+    use crate::restion::Restion;
+
+    fn is_control(op: u8) -> bool { op >= 8 }
+
+    /// One client script of NF frames with P payload bytes each; FIN bits and opcodes symbolic (restricted to
+    /// protocol-valid scripts). The oracle below is the property statement, computed from the symbolic script.
+    /// mode 0: blocking recv; mode 1: recv_nonblocking with the first frame already arriving.
+    fn script<const NF: usize, const P: usize>(mode: u8, kinds: [(u8, bool); NF]) {
+        ghost::reset();
+        frames::reset(P);
+        let mut exp_out = [0u8; ghost::CAP];
+        let mut eo = 0usize;
+        let mut msg = [0u8; 16];
+        let mut ml = 0usize;
+        let mut text = false;
+        let mut seen_data = false;
+        let mut outcome: u8 = 2; // 0 = Ok(message), 1 = Err(ConnectionClosed), 2 = Err(ReadError): stream ended first
+        let mut stop_at = NF;
+        let mut f = 0;
+        while f < NF {
+            // frame kinds are fixed per harness (every protocol-valid script up to the bound is generated, see
+            // vf/gen_c11.py); payload bytes are symbolic
+            let (op, fin) = kinds[f];
+            let pl: [u8; P] = kani::any();
+            frames::push(fin, op, &pl);
+            if outcome == 2 {
+                if op == 9 || op == 8 {
+                    exp_out[eo] = 0x80 | (if op == 9 { 10 } else { 8 });
+                    exp_out[eo + 1] = P as u8;
+                    exp_out[eo + 2..eo + 2 + P].copy_from_slice(&pl);
+                    eo += 2 + P;
+                    if op == 8 { outcome = 1; stop_at = f + 1; }
+                } else if op != 10 {
+                    if !seen_data { text = op == 1; seen_data = true; }
+                    msg[ml..ml + P].copy_from_slice(&pl);
+                    ml += P;
+                    if fin { outcome = 0; stop_at = f + 1; }
+                }
+            }
+            f += 1;
+        }
+
+        let mut ws = WebsocketStream::new(ghost::dummy_stream());
+        let r: Result<Message, WebsocketError> = if mode == 0 {
+            ws.recv()
+        } else {
+            match ws.recv_nonblocking() {
+                Restion::Ok(m) => Ok(m),
+                Restion::Err(e) => Err(e),
+                Restion::None => {
+                    assert!(false, "non-blocking receive reports `nothing yet` although a frame has started to arrive");
+                    return;
+                }
+            }
+        };
+        match r {
+            Ok(m) => {
+                assert!(outcome == 0, "a message is delivered only when the script completes one");
+                assert!(m.bytes().len() == ml, "message length = sum of fragment lengths");
+                if ml > 0 {
+                    let j: usize = kani::any();
+                    kani::assume(j < ml);
+                    assert!(m.bytes()[j] == msg[j], "message = fragments concatenated in order");
+                }
+                assert!(m.is_text() == text, "text/binary taken from the first fragment");
+            }
+            Err(WebsocketError::ConnectionClosed) => {
+                assert!(outcome == 1, "connection-closed is reported exactly for a Close frame");
+                assert!(ws.closed, "stream marked closed");
+            }
+            Err(WebsocketError::ReadError) => assert!(outcome == 2, "read error only when the stream ends inside a message"),
+            Err(_) => assert!(false, "no other error for a valid script"),
+        }
+        {
+            let g = ghost::g();
+            assert!(frames::sc().next == stop_at, "exactly the frames up to the end of the message are consumed");
+            assert!(g.out_len == eo, "server wrote exactly one reply frame per Ping/Close and nothing else");
+            if eo > 0 {
+                let j: usize = kani::any();
+                kani::assume(j < eo);
+                assert!(ghost::bufs().out[j] == exp_out[j], "every byte written is part of a well-formed unmasked Pong/Close frame echoing the payload");
+            }
+        }
+        let was_closed = ws.closed;
+        drop(ws);
+        {
+            let g = ghost::g();
+            if was_closed {
+                assert!(g.out_len == eo, "nothing is sent after the closing handshake");
+            } else {
+                assert!(g.out_len == eo + 2 && ghost::bufs().out[eo] == 0x88 && ghost::bufs().out[eo + 1] == 0, "dropping an open stream sends one empty Close frame");
+            }
+        }
+        kani::cover!(true, "the script ran to the end of the harness");
+    }
+
+    macro_rules! scr {
+        ($name:ident, $nf:expr, $p:expr, $mode:expr, $kinds:expr) => {
+            #[kani::proof]
+            #[kani::unwind(6)]
+            #[kani::stub(crate::frame::Frame::from_stream, frames::stub_from_stream)]
+            #[kani::stub(crate::frame::Frame::from_stream_nonblocking, frames::stub_from_stream_nonblocking)]
+            #[kani::stub(<humphrey::stream::Stream as std::io::Write>::write, ghost::stub_write)]
+            #[kani::stub(std::time::Instant::now, ghost::stub_now)]
+            #[kani::stub(libc::close, ghost::stub_close)]
+            pub fn $name() {
+                script::<$nf, $p>($mode, $kinds);
+            }
+        };
+    }
+    // BEGIN GENERATED c11 scripts
+    scr!(c11_s_P_b, 1, 2, 0, [(9, true)]);
+    scr!(c11_s_PP_b, 2, 2, 0, [(9, true), (9, true)]);
+    scr!(c11_s_PPP_b, 3, 1, 0, [(9, true), (9, true), (9, true)]);
+    scr!(c11_s_PPO_b, 3, 1, 0, [(9, true), (9, true), (10, true)]);
+    scr!(c11_s_PPX_b, 3, 1, 0, [(9, true), (9, true), (8, true)]);
+    scr!(c11_s_PPT_b, 3, 1, 0, [(9, true), (9, true), (1, true)]);
+    scr!(c11_s_PPt_b, 3, 1, 0, [(9, true), (9, true), (1, false)]);
+    scr!(c11_s_PPB_b, 3, 1, 0, [(9, true), (9, true), (2, true)]);
+    scr!(c11_s_PPb_b, 3, 1, 0, [(9, true), (9, true), (2, false)]);
+    scr!(c11_s_PO_b, 2, 2, 0, [(9, true), (10, true)]);
+    scr!(c11_s_POP_b, 3, 1, 0, [(9, true), (10, true), (9, true)]);
+    scr!(c11_s_POO_b, 3, 1, 0, [(9, true), (10, true), (10, true)]);
+    scr!(c11_s_POX_b, 3, 1, 0, [(9, true), (10, true), (8, true)]);
+    scr!(c11_s_POT_b, 3, 1, 0, [(9, true), (10, true), (1, true)]);
+    scr!(c11_s_POt_b, 3, 1, 0, [(9, true), (10, true), (1, false)]);
+    scr!(c11_s_POB_b, 3, 1, 0, [(9, true), (10, true), (2, true)]);
+    scr!(c11_s_POb_b, 3, 1, 0, [(9, true), (10, true), (2, false)]);
+    scr!(c11_s_PX_b, 2, 2, 0, [(9, true), (8, true)]);
+    scr!(c11_s_PT_b, 2, 2, 0, [(9, true), (1, true)]);
+    scr!(c11_s_Pt_b, 2, 2, 0, [(9, true), (1, false)]);
+    scr!(c11_s_PtP_b, 3, 1, 0, [(9, true), (1, false), (9, true)]);
+    scr!(c11_s_PtO_b, 3, 1, 0, [(9, true), (1, false), (10, true)]);
+    scr!(c11_s_PtX_b, 3, 1, 0, [(9, true), (1, false), (8, true)]);
+    scr!(c11_s_PtC_b, 3, 1, 0, [(9, true), (1, false), (0, true)]);
+    scr!(c11_s_Ptc_b, 3, 1, 0, [(9, true), (1, false), (0, false)]);
+    scr!(c11_s_PB_b, 2, 2, 0, [(9, true), (2, true)]);
+    scr!(c11_s_Pb_b, 2, 2, 0, [(9, true), (2, false)]);
+    scr!(c11_s_PbP_b, 3, 1, 0, [(9, true), (2, false), (9, true)]);
+    scr!(c11_s_PbO_b, 3, 1, 0, [(9, true), (2, false), (10, true)]);
+    scr!(c11_s_PbX_b, 3, 1, 0, [(9, true), (2, false), (8, true)]);
+    scr!(c11_s_PbC_b, 3, 1, 0, [(9, true), (2, false), (0, true)]);
+    scr!(c11_s_Pbc_b, 3, 1, 0, [(9, true), (2, false), (0, false)]);
+    scr!(c11_s_O_b, 1, 2, 0, [(10, true)]);
+    scr!(c11_s_OP_b, 2, 2, 0, [(10, true), (9, true)]);
+    scr!(c11_s_OPP_b, 3, 1, 0, [(10, true), (9, true), (9, true)]);
+    scr!(c11_s_OPO_b, 3, 1, 0, [(10, true), (9, true), (10, true)]);
+    scr!(c11_s_OPX_b, 3, 1, 0, [(10, true), (9, true), (8, true)]);
+    scr!(c11_s_OPT_b, 3, 1, 0, [(10, true), (9, true), (1, true)]);
+    scr!(c11_s_OPt_b, 3, 1, 0, [(10, true), (9, true), (1, false)]);
+    scr!(c11_s_OPB_b, 3, 1, 0, [(10, true), (9, true), (2, true)]);
+    scr!(c11_s_OPb_b, 3, 1, 0, [(10, true), (9, true), (2, false)]);
+    scr!(c11_s_OO_b, 2, 2, 0, [(10, true), (10, true)]);
+    scr!(c11_s_OOP_b, 3, 1, 0, [(10, true), (10, true), (9, true)]);
+    scr!(c11_s_OOO_b, 3, 1, 0, [(10, true), (10, true), (10, true)]);
+    scr!(c11_s_OOX_b, 3, 1, 0, [(10, true), (10, true), (8, true)]);
+    scr!(c11_s_OOT_b, 3, 1, 0, [(10, true), (10, true), (1, true)]);
+    scr!(c11_s_OOt_b, 3, 1, 0, [(10, true), (10, true), (1, false)]);
+    scr!(c11_s_OOB_b, 3, 1, 0, [(10, true), (10, true), (2, true)]);
+    scr!(c11_s_OOb_b, 3, 1, 0, [(10, true), (10, true), (2, false)]);
+    scr!(c11_s_OX_b, 2, 2, 0, [(10, true), (8, true)]);
+    scr!(c11_s_OT_b, 2, 2, 0, [(10, true), (1, true)]);
+    scr!(c11_s_Ot_b, 2, 2, 0, [(10, true), (1, false)]);
+    scr!(c11_s_OtP_b, 3, 1, 0, [(10, true), (1, false), (9, true)]);
+    scr!(c11_s_OtO_b, 3, 1, 0, [(10, true), (1, false), (10, true)]);
+    scr!(c11_s_OtX_b, 3, 1, 0, [(10, true), (1, false), (8, true)]);
+    scr!(c11_s_OtC_b, 3, 1, 0, [(10, true), (1, false), (0, true)]);
+    scr!(c11_s_Otc_b, 3, 1, 0, [(10, true), (1, false), (0, false)]);
+    scr!(c11_s_OB_b, 2, 2, 0, [(10, true), (2, true)]);
+    scr!(c11_s_Ob_b, 2, 2, 0, [(10, true), (2, false)]);
+    scr!(c11_s_ObP_b, 3, 1, 0, [(10, true), (2, false), (9, true)]);
+    scr!(c11_s_ObO_b, 3, 1, 0, [(10, true), (2, false), (10, true)]);
+    scr!(c11_s_ObX_b, 3, 1, 0, [(10, true), (2, false), (8, true)]);
+    scr!(c11_s_ObC_b, 3, 1, 0, [(10, true), (2, false), (0, true)]);
+    scr!(c11_s_Obc_b, 3, 1, 0, [(10, true), (2, false), (0, false)]);
+    scr!(c11_s_X_b, 1, 2, 0, [(8, true)]);
+    scr!(c11_s_T_b, 1, 2, 0, [(1, true)]);
+    scr!(c11_s_t_b, 1, 2, 0, [(1, false)]);
+    scr!(c11_s_tP_b, 2, 2, 0, [(1, false), (9, true)]);
+    scr!(c11_s_tPP_b, 3, 1, 0, [(1, false), (9, true), (9, true)]);
+    scr!(c11_s_tPO_b, 3, 1, 0, [(1, false), (9, true), (10, true)]);
+    scr!(c11_s_tPX_b, 3, 1, 0, [(1, false), (9, true), (8, true)]);
+    scr!(c11_s_tPC_b, 3, 1, 0, [(1, false), (9, true), (0, true)]);
+    scr!(c11_s_tPc_b, 3, 1, 0, [(1, false), (9, true), (0, false)]);
+    scr!(c11_s_tO_b, 2, 2, 0, [(1, false), (10, true)]);
+    scr!(c11_s_tOP_b, 3, 1, 0, [(1, false), (10, true), (9, true)]);
+    scr!(c11_s_tOO_b, 3, 1, 0, [(1, false), (10, true), (10, true)]);
+    scr!(c11_s_tOX_b, 3, 1, 0, [(1, false), (10, true), (8, true)]);
+    scr!(c11_s_tOC_b, 3, 1, 0, [(1, false), (10, true), (0, true)]);
+    scr!(c11_s_tOc_b, 3, 1, 0, [(1, false), (10, true), (0, false)]);
+    scr!(c11_s_tX_b, 2, 2, 0, [(1, false), (8, true)]);
+    scr!(c11_s_tC_b, 2, 2, 0, [(1, false), (0, true)]);
+    scr!(c11_s_tc_b, 2, 2, 0, [(1, false), (0, false)]);
+    scr!(c11_s_tcP_b, 3, 1, 0, [(1, false), (0, false), (9, true)]);
+    scr!(c11_s_tcO_b, 3, 1, 0, [(1, false), (0, false), (10, true)]);
+    scr!(c11_s_tcX_b, 3, 1, 0, [(1, false), (0, false), (8, true)]);
+    scr!(c11_s_tcC_b, 3, 1, 0, [(1, false), (0, false), (0, true)]);
+    scr!(c11_s_tcc_b, 3, 1, 0, [(1, false), (0, false), (0, false)]);
+    scr!(c11_s_B_b, 1, 2, 0, [(2, true)]);
+    scr!(c11_s_b_b, 1, 2, 0, [(2, false)]);
+    scr!(c11_s_bP_b, 2, 2, 0, [(2, false), (9, true)]);
+    scr!(c11_s_bPP_b, 3, 1, 0, [(2, false), (9, true), (9, true)]);
+    scr!(c11_s_bPO_b, 3, 1, 0, [(2, false), (9, true), (10, true)]);
+    scr!(c11_s_bPX_b, 3, 1, 0, [(2, false), (9, true), (8, true)]);
+    scr!(c11_s_bPC_b, 3, 1, 0, [(2, false), (9, true), (0, true)]);
+    scr!(c11_s_bPc_b, 3, 1, 0, [(2, false), (9, true), (0, false)]);
+    scr!(c11_s_bO_b, 2, 2, 0, [(2, false), (10, true)]);
+    scr!(c11_s_bOP_b, 3, 1, 0, [(2, false), (10, true), (9, true)]);
+    scr!(c11_s_bOO_b, 3, 1, 0, [(2, false), (10, true), (10, true)]);
+    scr!(c11_s_bOX_b, 3, 1, 0, [(2, false), (10, true), (8, true)]);
+    scr!(c11_s_bOC_b, 3, 1, 0, [(2, false), (10, true), (0, true)]);
+    scr!(c11_s_bOc_b, 3, 1, 0, [(2, false), (10, true), (0, false)]);
+    scr!(c11_s_bX_b, 2, 2, 0, [(2, false), (8, true)]);
+    scr!(c11_s_bC_b, 2, 2, 0, [(2, false), (0, true)]);
+    scr!(c11_s_bc_b, 2, 2, 0, [(2, false), (0, false)]);
+    scr!(c11_s_bcP_b, 3, 1, 0, [(2, false), (0, false), (9, true)]);
+    scr!(c11_s_bcO_b, 3, 1, 0, [(2, false), (0, false), (10, true)]);
+    scr!(c11_s_bcX_b, 3, 1, 0, [(2, false), (0, false), (8, true)]);
+    scr!(c11_s_bcC_b, 3, 1, 0, [(2, false), (0, false), (0, true)]);
+    scr!(c11_s_bcc_b, 3, 1, 0, [(2, false), (0, false), (0, false)]);
+    scr!(c11_s_P_n, 1, 2, 1, [(9, true)]);
+    scr!(c11_s_PP_n, 2, 2, 1, [(9, true), (9, true)]);
+    scr!(c11_s_PO_n, 2, 2, 1, [(9, true), (10, true)]);
+    scr!(c11_s_PX_n, 2, 2, 1, [(9, true), (8, true)]);
+    scr!(c11_s_PT_n, 2, 2, 1, [(9, true), (1, true)]);
+    scr!(c11_s_Pt_n, 2, 2, 1, [(9, true), (1, false)]);
+    scr!(c11_s_PB_n, 2, 2, 1, [(9, true), (2, true)]);
+    scr!(c11_s_Pb_n, 2, 2, 1, [(9, true), (2, false)]);
+    scr!(c11_s_O_n, 1, 2, 1, [(10, true)]);
+    scr!(c11_s_OP_n, 2, 2, 1, [(10, true), (9, true)]);
+    scr!(c11_s_OO_n, 2, 2, 1, [(10, true), (10, true)]);
+    scr!(c11_s_OX_n, 2, 2, 1, [(10, true), (8, true)]);
+    scr!(c11_s_OT_n, 2, 2, 1, [(10, true), (1, true)]);
+    scr!(c11_s_Ot_n, 2, 2, 1, [(10, true), (1, false)]);
+    scr!(c11_s_OB_n, 2, 2, 1, [(10, true), (2, true)]);
+    scr!(c11_s_Ob_n, 2, 2, 1, [(10, true), (2, false)]);
+    scr!(c11_s_X_n, 1, 2, 1, [(8, true)]);
+    scr!(c11_s_T_n, 1, 2, 1, [(1, true)]);
+    scr!(c11_s_t_n, 1, 2, 1, [(1, false)]);
+    scr!(c11_s_tP_n, 2, 2, 1, [(1, false), (9, true)]);
+    scr!(c11_s_tO_n, 2, 2, 1, [(1, false), (10, true)]);
+    scr!(c11_s_tX_n, 2, 2, 1, [(1, false), (8, true)]);
+    scr!(c11_s_tC_n, 2, 2, 1, [(1, false), (0, true)]);
+    scr!(c11_s_tc_n, 2, 2, 1, [(1, false), (0, false)]);
+    scr!(c11_s_B_n, 1, 2, 1, [(2, true)]);
+    scr!(c11_s_b_n, 1, 2, 1, [(2, false)]);
+    scr!(c11_s_bP_n, 2, 2, 1, [(2, false), (9, true)]);
+    scr!(c11_s_bO_n, 2, 2, 1, [(2, false), (10, true)]);
+    scr!(c11_s_bX_n, 2, 2, 1, [(2, false), (8, true)]);
+    scr!(c11_s_bC_n, 2, 2, 1, [(2, false), (0, true)]);
+    scr!(c11_s_bc_n, 2, 2, 1, [(2, false), (0, false)]);
+    // END GENERATED c11 scripts
+
+    /// Message::from_stream_nonblocking when the frame decoder reports `nothing yet`: reports nothing yet, writes nothing.
+    #[kani::proof]
+    #[kani::unwind(6)]
+    #[kani::stub(crate::frame::Frame::from_stream, frames::stub_from_stream)]
+    #[kani::stub(crate::frame::Frame::from_stream_nonblocking, frames::stub_from_stream_nonblocking)]
+    #[kani::stub(<humphrey::stream::Stream as std::io::Write>::write, ghost::stub_write)]
+    #[kani::stub(std::time::Instant::now, ghost::stub_now)]
+    #[kani::stub(libc::close, ghost::stub_close)]
+    pub fn c11_message_nonblocking_nothing_yet() {
+        ghost::reset();
+        frames::reset(0);
+        frames::sc().nb_nothing = true;
+        let mut ws = WebsocketStream::new(ghost::dummy_stream());
+        let r = ws.recv_nonblocking();
+        assert!(matches!(r, Restion::None), "nothing yet is passed through");
+        assert!(ghost::g().out_len == 0 && !ws.closed);
+        std::mem::forget(ws);
+    }
+
+    /// Frame::from_stream_nonblocking, modular: the rest-of-frame decoder `from_stream_inner` is replaced by a stub that
+    /// records how it was called (its contract is the C10 decoder contract). Obligation: when `arrived` >= 1 bytes of a
+    /// frame are there at the time of the non-blocking header read, the inner decoder is entered with the frame's real
+    /// two header bytes, after exactly two bytes were consumed, on a stream that is blocking again -- i.e. the result
+    /// is what a blocking read gives; with nothing arrived the answer is `nothing yet` and no byte is consumed.
+    pub mod inner {
+        pub struct Rec { pub called: bool, pub h0: u8, pub h1: u8, pub pos: usize, pub nonblocking: bool }
+        pub static mut REC: Rec = Rec { called: false, h0: 0, h1: 0, pos: 0, nonblocking: false };
+        pub fn rec() -> &'static mut Rec { unsafe { &mut *std::ptr::addr_of_mut!(REC) } }
+        pub fn stub_inner<T: std::io::Read>(_stream: T, header: [u8; 2]) -> Result<crate::frame::Frame, crate::error::WebsocketError> {
+            let r = rec();
+            r.called = true; r.h0 = header[0]; r.h1 = header[1];
+            r.pos = super::ghost::g().in_pos;
+            r.nonblocking = super::ghost::g().nonblocking;
+            Err(crate::error::WebsocketError::InvalidOpcode)
+        }
+    }
+    fn frame_nonblocking_partial(arrived: usize) {
+        ghost::reset();
+        { let r = inner::rec(); r.called = false; }
+        let wire: [u8; 6] = kani::any();
+        ghost::push_in(&wire);
+        ghost::g().arrived = arrived;
+        let mut st = ghost::dummy_stream();
+        let r = Frame::from_stream_nonblocking(&mut st);
+        let rec = inner::rec();
+        if arrived == 0 {
+            assert!(matches!(r, Restion::None), "nothing arrived => nothing yet");
+            assert!(!rec.called && ghost::g().in_pos == 0, "no byte consumed");
+        } else {
+            assert!(!matches!(r, Restion::None), "`nothing yet` although a frame has started to arrive");
+            assert!(rec.called, "the frame is decoded");
+            assert!(rec.h0 == wire[0] && rec.h1 == wire[1], "the decoder continues from the frame's real two header bytes");
+            assert!(rec.pos == 2, "exactly the header has been consumed when the rest of the frame is decoded");
+            assert!(!rec.nonblocking, "the rest of the frame is read in blocking mode");
+            assert!(matches!(r, Restion::Err(WebsocketError::InvalidOpcode)), "the inner decoder's result is returned unchanged");
+        }
+        assert!(!ghost::g().nonblocking, "stream is left in blocking mode");
+        std::mem::forget(st);
+    }
+    macro_rules! fnb {
+        ($name:ident, $arr:expr) => {
+            #[kani::proof]
+            #[kani::unwind(5)]
+            #[kani::stub(<humphrey::stream::Stream as std::io::Read>::read, ghost::stub_read)]
+            #[kani::stub(humphrey::stream::Stream::set_nonblocking, ghost::stub_set_nonblocking)]
+            #[kani::stub(humphrey::stream::Stream::set_blocking, ghost::stub_set_blocking)]
+            #[kani::stub(crate::frame::Frame::from_stream_inner, inner::stub_inner)]
+            pub fn $name() { frame_nonblocking_partial($arr); }
+        };
+    }
+    fnb!(c11_frame_nonblocking_arrived0, 0);
+    fnb!(c11_frame_nonblocking_arrived1, 1);
+    fnb!(c11_frame_nonblocking_arrived2, 2);
+    fnb!(c11_frame_nonblocking_arrived6, 6);
+
+    /// Opening handshake without a Sec-WebSocket-Key: not upgraded, nothing written (the only input is header presence).
+    #[kani::proof]
+    #[kani::unwind(20)]
+    #[kani::stub(<humphrey::stream::Stream as std::io::Write>::write, ghost::stub_write)]
+    #[kani::stub(libc::close, ghost::stub_close)]
+    pub fn c11_handshake_without_key() {
+        ghost::reset();
+        let request = humphrey::http::Request {
+            method: humphrey::http::method::Method::Get,
+            uri: String::new(),
+            query: String::new(),
+            version: String::new(),
+            headers: humphrey::http::headers::Headers::new(),
+            content: None,
+            address: humphrey::http::address::Address { origin_addr: std::net::IpAddr::V4(std::net::Ipv4Addr::new(127, 0, 0, 1)), proxies: Vec::new(), port: 1 },
+        };
+        // through the public entry point: the user handler must not run and nothing may be written
+        let h = crate::handler::websocket_handler(|_ws: WebsocketStream, _state: std::sync::Arc<()>| {
+            assert!(false, "a request without a key is not upgraded");
+        });
+        h(request, ghost::dummy_stream(), std::sync::Arc::new(()));
+        assert!(ghost::g().out_len == 0, "nothing is written");
+    }
+
+    /// Dropping an open stream sends exactly one empty Close frame.
+    #[kani::proof]
+    #[kani::unwind(6)]
+    #[kani::stub(<humphrey::stream::Stream as std::io::Write>::write, ghost::stub_write)]
+    #[kani::stub(std::time::Instant::now, ghost::stub_now)]
+    #[kani::stub(libc::close, ghost::stub_close)]
+    pub fn c11_drop_sends_close() {
+        ghost::reset();
+        {
+            let _ws = WebsocketStream::new(ghost::dummy_stream());
+        }
+        let o = &ghost::bufs().out;
+        assert!(ghost::g().out_len == 2 && o[0] == 0x88 && o[1] == 0x00, "dropping an open stream sends an empty Close frame");
+    }
+
+    /// Non-blocking receive with nothing arrived: `nothing yet`, no byte consumed, nothing written.
+    #[kani::proof]
+    #[kani::unwind(6)]
+    #[kani::stub(<humphrey::stream::Stream as std::io::Read>::read, ghost::stub_read)]
+    #[kani::stub(<humphrey::stream::Stream as std::io::Write>::write, ghost::stub_write)]
+    #[kani::stub(humphrey::stream::Stream::set_nonblocking, ghost::stub_set_nonblocking)]
+    #[kani::stub(humphrey::stream::Stream::set_blocking, ghost::stub_set_blocking)]
+    #[kani::stub(std::time::Instant::now, ghost::stub_now)]
+    #[kani::stub(libc::close, ghost::stub_close)]
+    pub fn c11_nonblocking_nothing_yet() {
+        ghost::reset();
+        let mut ws = WebsocketStream::new(ghost::dummy_stream());
+        let r = ws.recv_nonblocking();
+        assert!(matches!(r, Restion::None), "no frame started => nothing yet");
+        assert!(ghost::g().in_pos == 0 && ghost::g().out_len == 0 && !ghost::g().nonblocking, "stream left blocking, untouched");
+        std::mem::forget(ws);
+    }
+
+    /// send / ping write exactly one well-formed unmasked frame.
+    #[kani::proof]
+    #[kani::unwind(8)]
+    #[kani::stub(<humphrey::stream::Stream as std::io::Read>::read, ghost::stub_read)]
+    #[kani::stub(<humphrey::stream::Stream as std::io::Write>::write, ghost::stub_write)]
+    #[kani::stub(std::time::Instant::now, ghost::stub_now)]
+    #[kani::stub(libc::close, ghost::stub_close)]
+    pub fn c11_send_and_ping_frames() {
+        ghost::reset();
+        let mut ws = WebsocketStream::new(ghost::dummy_stream());
+        let pl: [u8; 3] = kani::any();
+        assert!(ws.send(Message::new_binary(pl)).is_ok());
+        assert!(ws.ping().is_ok());
+        {
+            let g = ghost::g();
+            assert!(g.out_len == 7, "binary message of 3 bytes = 5-byte frame, ping = 2-byte frame");
+            let o = &ghost::bufs().out;
+            assert!(o[0] == 0x82 && o[1] == 3 && o[2] == pl[0] && o[3] == pl[1] && o[4] == pl[2], "unmasked binary frame");
+            assert!(o[5] == 0x89 && o[6] == 0, "empty ping frame");
+        }
+        std::mem::forget(ws);
+    }
+}
+
 #[cfg(test)]
 mod playback {
     include!(concat!(env!("HUMPHREY_VERIF"), "/build/playback/in_ws_playback.rs"));
